@@ -202,6 +202,12 @@ static std::string in_child(const std::function<std::string()> &f) {
     while ((x = l.find("0x")) != std::string::npos) { size_t e = x + 2; while (e < l.size() && isxdigit(l[e])) ++e; l.replace(x, e - x, "ADDR"); }
     return "ubsan:" + l;
   }
+  // ASan's throwing operator new aborts instead of throwing std::bad_alloc: not the behaviour of
+  // the library; the check re-runs such a case on the unsanitized build
+  if (err.find("AddressSanitizer: out-of-memory") != std::string::npos ||
+      err.find("AddressSanitizer: allocation-size-too-big") != std::string::npos ||
+      err.find("AddressSanitizer: allocator is out of memory") != std::string::npos ||
+      err.find("exceeds maximum supported size") != std::string::npos) return "asan-oom";
   if (err.find("AddressSanitizer") != std::string::npos) {
     size_t a = err.find("AddressSanitizer: ");
     std::string k = a == std::string::npos ? "?" : err.substr(a + 18, err.find_first_of(" \n", a + 18) - a - 18);
